@@ -11,7 +11,7 @@ case $2 in
     mkdir -p "$L"
     git -C /repo worktree add -q --detach "$L/repo" HEAD || exit 1
     rsync -a --exclude .git --exclude '/out' --exclude '/harness/target/cfg' --exclude '/harness/target/debug' /verif/ "$L/verif/" || exit 1
-    sed -i "s#path = \"/repo/rcgen\"#path = \"$L/repo/rcgen\"#" "$L/verif/harness/vcheck/Cargo.toml"
+    sed -i "s#path = \"/repo/#path = \"$L/repo/#" "$L/verif/harness/vcheck/Cargo.toml"
     echo "export VERIF_ROOT=$L/verif VERIF_REPO=$L/repo" ;;
   remove)
     git -C /repo worktree remove --force "$L/repo" 2>/dev/null
